@@ -149,7 +149,9 @@ Section Pair.
     match self with
     | Pt p _ =>
         match other with
-        | Pt q _ => Ok (pt_eqb p q)                       (* self.coordinate == shape.coordinate *)
+        | Pt q _ =>
+            if d4 then Ok (pt_eqb p q)                    (* self.coordinate == shape.coordinate *)
+            else Ok (pt_eqb p q && option_eqb iv_eqb (dt_of self) (dt_of other))   (* `self == shape` *)
         | _ =>                                            (* shape.intersects_shape(self) *)
             if d4 then Ok (contains_coordinate other p)
             else Ok (gate_passes other self && contains_coordinate other p)   (* `self in shape` *)
